@@ -395,6 +395,9 @@ func genOps(prop string, r *Rng, n int, tier string, emit func(string)) {
 	case "C13":
 		for i := 0; i < n; i++ {
 			b := genTwccBytes(r)
+			if r.Chance(1, 8) {
+				b = genTwccWrap(r)
+			}
 			if r.Chance(1, 5) {
 				b = mutate(r, b)
 			}
